@@ -300,7 +300,65 @@ def translate(path):
 
 
 
+def _translate_public_get_weights():
+    """the module-level weights.get_weights (the function every calculator calls): class lookup, construction, the
+    method call - matched textually - and the RETURN expression, evaluated symbolically: what is done to the weights."""
+    import ast
+    from . import nptrans
+    tree = ast.parse(open(os.path.join(common.REPO, "sasmodels", "weights.py")).read())
+    fn = next((n for n in tree.body if isinstance(n, ast.FunctionDef) and n.name == "get_weights"), None)
+    if fn is None:
+        raise Untranslatable("module-level get_weights not found")
+    if [a.arg for a in fn.args.args] != ["disperser", "n", "width", "nsigmas", "value", "limits", "relative"]:
+        raise Untranslatable("get_weights signature")
+    body = [b for b in fn.body if not (isinstance(b, ast.Expr) and isinstance(b.value, ast.Constant))]
+    txt = [ast.unparse(b) for b in body]
+    want = ["cls = DISTRIBUTIONS[disperser]", "obj = cls(n, width, nsigmas)", "v, w = obj.get_weights(value, limits[0], limits[1], relative)"]
+    if len(body) != 5 or not (isinstance(body[0], ast.If) and ast.unparse(body[0].test) == "disperser == 'array'" and isinstance(body[0].body[0], ast.Raise)) \
+            or txt[1:4] != want or not isinstance(body[4], ast.Return) or not isinstance(body[4].value, ast.Tuple) or len(body[4].value.elts) != 2:
+        raise Untranslatable("get_weights body: %s" % txt)
+    if ast.unparse(body[4].value.elts[0]) != "v":
+        raise Untranslatable("get_weights does not return the values as computed")
+    try:
+        ev = nptrans.Evaluator({"w": ("i",), "v": ("i",)})
+        r = ev.ev(body[4].value.elts[1])
+    except nptrans.Untranslatable as exc:
+        raise Untranslatable(str(exc))
+    if r.axes != ("i",):
+        raise Untranslatable("the returned weights are not one per value")
+    return r.e
+
+
+def gen_public():
+    from . import nptrans
+    lines = ["(* GENERATED by harness/c02.py from sasmodels/weights.py (module-level get_weights: what is returned as weights) *)",
+             "From Coq Require Import Reals List.", "From SM Require Import Base.Num C03.Model.", "Open Scope R_scope.", ""]
+    note = None
+    try:
+        e = _translate_public_get_weights()
+        body = nptrans.coq(e, {("w", ()): "x"}, {}, sums={"i": ("w", "y")})
+        # inside the sum the element is the bound variable y
+        body = body.replace("(fun y => x)", "(fun y => y)")
+    except (Untranslatable, nptrans.Untranslatable, OSError, SyntaxError) as exc:
+        note = "%s: %s" % (type(exc).__name__, exc)
+        body = "(div O x (sumL O (map (fun y => y) w)))"
+    lines.append("Definition public_translated : bool := %s." % ("true" if note is None else "false"))
+    if note:
+        lines.append("(* not translated: %s *)" % note.replace("*)", "* )"))
+    lines += ["Definition code_returned_weights (w : list R) : list R := let O := ROps in map (fun x => %s) w." % body, ""]
+    common.write_if_changed(os.path.join(common.THEORIES, "Gen", "C02_public.v"), "\n".join(lines))
+    return note
+
+
+PUBLIC_NOTE = [None]
+
+
 def gen():
+    PUBLIC_NOTE[0] = gen_public()
+    return _gen_bodies()
+
+
+def _gen_bodies():
     """Regenerate Gen/C02_bodies.v from the current weights.py.  When a body uses syntax outside the whitelist
     the file says so (translated := false) and the obligations over it are vacuous: the behavioural tie decides."""
     path = os.path.join(common.REPO, "sasmodels", "weights.py")
@@ -403,6 +461,8 @@ def main(run):
     thorough = run.tier == "thorough"
     note = [None]
     run.prove(["C02/Property.v"], gen=lambda: note.__setitem__(0, gen()))
+    run.notes.append(("module-level get_weights not translated (%s): C02_code_returned_weights / C02_code_normalised are vacuous in this run" % PUBLIC_NOTE[0]) if PUBLIC_NOTE[0] else
+                     "the return expression of the module-level get_weights translated from the current weights.py (Gen/C02_public.v): the weights handed to every calculator are w / sum(w) (C02_code_returned_weights, C02_code_normalised)")
     if note[0]:
         run.notes.append("weights.py bodies not translated (%s): the regenerated-formula obligations are vacuous in this run, the behavioural tie decides" % note[0])
     ncase = 400 if not thorough else 6000
